@@ -12,7 +12,7 @@ use serde_json::json;
 use std::collections::BTreeSet;
 
 /// (type text, needs U, needs N, needs 'a, needs T: Tr, Default-value expression usable without bounds)
-const TYPES: [(&str, bool, bool, bool, bool, &str); 18] = [
+const TYPES: [(&str, bool, bool, bool, bool, &str); 19] = [
     ("T", false, false, false, false, ""),
     ("Option<T>", false, false, false, false, "None"),
     ("Vec<T>", false, false, false, false, "Vec::new()"),
@@ -29,6 +29,8 @@ const TYPES: [(&str, bool, bool, bool, bool, &str); 18] = [
     ("Option<r#T>", false, false, false, false, "None"),
     // a type macro whose argument mentions the parameter
     ("opt!(T)", false, false, false, false, "None"),
+    // a type macro that mentions the parameter only inside a delimited group of its argument
+    ("grp!((T))", false, false, false, false, "None"),
     ("fn(T) -> U", true, false, false, false, ""),
     ("*const T", false, false, false, false, "::core::ptr::null()"),
     ("<T as Tr>::Assoc", false, false, false, true, ""),
@@ -103,6 +105,8 @@ struct Case {
     entry: Entry,
     /// declared where-clause `where T: Marker` on the definition
     declared_where: bool,
+    /// the parameter is declared `T: ?Sized` and the last field is a bare `T`
+    unsized_t: bool,
 }
 
 fn is_cmp(t: &str) -> bool {
@@ -124,7 +128,7 @@ fn gen(ch: &mut Ch, thorough: bool) -> Option<Case> {
         return None;
     }
     let n = 1 + ch.pick(if thorough { 3 } else { 2 });
-    let ntypes = if thorough { TYPES.len() } else { 14 };
+    let ntypes = if thorough { TYPES.len() } else { 15 };
     let mut fields = Vec::new();
     for i in 0..n {
         let ty = ch.pick(ntypes);
@@ -165,7 +169,15 @@ fn gen(ch: &mut Ch, thorough: bool) -> Option<Case> {
     if !fields.iter().any(|f| mentions(TYPES[f.0].0, "T")) {
         return None;
     }
-    Some(Case { vector: ch.vector(), tr, container, fields, entry, declared_where })
+    let unsized_t = ch.flag();
+    if unsized_t {
+        let last_is_t = fields.last().map(|f| f.0 == 0).unwrap_or(false);
+        let others_ok = fields[..fields.len() - 1].iter().all(|f| matches!(TYPES[f.0].0, "Box<T>" | "Rc<T>" | "PhantomData<T>" | "&'a T" | "i8" | "*const T"));
+        if !(last_is_t && others_ok && container <= 1 && !declared_where && matches!(tname, "Debug" | "PartialEq" | "Eq" | "PartialOrd" | "Ord" | "Hash")) {
+            return None;
+        }
+    }
+    Some(Case { vector: ch.vector(), tr, container, fields, entry, declared_where, unsized_t })
 }
 
 fn mentions(ty: &str, p: &str) -> bool {
@@ -203,7 +215,7 @@ fn build(c: &Case) -> Built {
         params.push("'a".into());
         args_names.push("'a".into());
     }
-    params.push(if needs_tr { "T: Tr".into() } else { "T".into() });
+    params.push(if needs_tr { "T: Tr".into() } else if c.unsized_t { "T: ?Sized".into() } else { "T".into() });
     args_names.push("T".into());
     if needs_u {
         params.push("U".into());
@@ -309,8 +321,9 @@ fn build(c: &Case) -> Built {
         }
     };
     // instantiations
-    let t_dom: Vec<&str> = if needs_tr { vec!["Yes", "AY", "AN"] } else if kind != Kind::Simple { vec!["Yes", "No", "Own"] } else { vec!["Yes", "No"] };
-    let t_dom: Vec<&str> = if c.declared_where { t_dom.into_iter().filter(|t| matches!(*t, "Yes" | "Own" | "AN")).collect() } else { t_dom };
+    // Tie: like Yes, but its `&Tie op &Tie` impls tie both operands to ONE lifetime
+    let t_dom: Vec<&str> = if needs_tr { vec!["Yes", "AY", "AN"] } else if kind != Kind::Simple { vec!["Yes", "No", "Own", "Tie"] } else if c.unsized_t { vec!["Yes", "No", "str", "dyn Marker"] } else { vec!["Yes", "No"] };
+    let t_dom: Vec<&str> = if c.declared_where { t_dom.into_iter().filter(|t| matches!(*t, "Yes" | "Own" | "AN" | "Tie")).collect() } else { t_dom };
     let u_dom: Vec<&str> = if needs_u { vec!["Yes", "No"] } else { vec![""] };
     let mut insts: Vec<String> = Vec::new();
     for t in &t_dom {
@@ -329,7 +342,7 @@ fn build(c: &Case) -> Built {
             insts.push(format!("<{}>", a.join(", ")));
         }
     }
-    let prelude = "use derive_ex::{derive_ex, Ex};\nuse dxrt::impls;\nuse dxrt::probe::*;\nuse ::core::marker::PhantomData;\nuse ::std::rc::Rc;\n#[allow(unused_macros)] macro_rules! opt { ($t:ty) => { ::core::option::Option<$t> }; }\n";
+    let prelude = "use derive_ex::{derive_ex, Ex};\nuse dxrt::impls;\nuse dxrt::probe::*;\nuse ::core::marker::PhantomData;\nuse ::std::rc::Rc;\n#[allow(unused_macros)] macro_rules! opt { ($t:ty) => { ::core::option::Option<$t> }; }\n#[allow(unused_macros)] macro_rules! grp { (($t:ty)) => { ::core::option::Option<$t> }; }\n";
     let mut twin = String::new();
     twin.push_str(prelude);
     twin.push_str(&body(false, "Y"));
